@@ -1,6 +1,6 @@
 (* C46 -- inline task execution never grows the stack without bound: proofs over Model/InlineDepthModel.v. *)
 From Coq Require Import ZArith List Bool Lia.
-From DV Require Import Base.MachInt Gen.GenTaskSet Model.TaskSetModel Model.TaskSetCheck GenTie.TaskSetGenTie Model.InlineDepthModel.
+From DV Require Import Base.MachInt Gen.GenTaskSet Model.InlineDepthModel.
 Import ListNotations.
 Local Open Scope Z_scope.
 
@@ -35,7 +35,7 @@ Proof.
   - destruct (Hd _ _ _ _ _ E) as [Hdg Hchk].
     assert (Hn : inv (nest + 1) (g + dg + body_guard s) (if chk then raw else raw + 1)).
     { unfold inv in *. rewrite kmax_val in *. destruct chk.
-      - destruct (Hchk eq_refl) as [Hg H1]. rewrite kmax_val in Hg. lia.
+      - destruct (Hchk eq_refl) as [Hg H1]. lia.
       - lia. }
     constructor; [exact Hn | apply Hk; exact Hn].
   - assert (Hn : inv 0 (body_guard s) 0) by (unfold inv; rewrite kmax_val; lia).
@@ -64,21 +64,20 @@ Proof.
   - destruct (code =? 11); intros H; inversion H; subst. split; [lia | discriminate].
 Qed.
 
-Lemma force_code_ne_m9 placed n : 10 + force_code placed n <> 1.
-Proof. unfold force_code. destruct (n =? 0); [|destruct placed]; lia. Qed.
-
-Lemma comp_cts_one placed out lf canc ci skip recursive w n plf l2 :
-  comp_cts placed out lf canc ci skip recursive w n plf l2 = 1 -> ci = true.
-Proof.
-  unfold comp_cts. pose proof (force_code_ne_m9 placed n) as F.
-  destruct ((cts_threshold placed n lf <? out) && negb canc && ci) eqn:E.
-  - intros _. apply andb_prop in E. tauto.
-  - destruct (negb skip && dec_overloaded recursive w n plf l2); [destruct ci; [reflexivity|]|]; intros H; contradiction.
-Qed.
+(* facts about the REGENERATED decision functions (Gen/GenTaskSet.v), proved by exhausting their branches: a change of the source
+   that lets ConcurrentTaskSet::schedule call the functor without having consulted canInlineSchedule() breaks [cts_code_one] *)
+Ltac gen_unfold :=
+  unfold G, gen_cts_schedule, gen_cts_schedulePlaced, gen_cts_schedule_force, gen_pool_schedule_force, gen_pool_schedulePlaced_force,
+         gen_pool_forceEnqueue_central, gen_pool_forceEnqueue_placed in *.
+Ltac split_ifs :=
+  repeat match goal with
+         | H : context [if ?b then _ else _] |- _ => destruct b eqn:?
+         end.
 
 Lemma cts_code_one c e ci cost : G c e gen_cts_schedule ci cost = 1 -> ci = true.
 Proof.
-  unfold G. rewrite tie_cts_schedule. destruct (cost =? c_kHeavy); apply comp_cts_one.
+  intros H. destruct ci; [reflexivity|]. exfalso. gen_unfold.
+  rewrite ?andb_false_r in H. cbn [negb orb andb] in H. rewrite ?orb_true_r in H. split_ifs; lia.
 Qed.
 
 Lemma pool_bulk_ok c e dg chk : pool_bulk c e = Inl dg chk -> dg = 0 /\ chk = false.
@@ -125,3 +124,168 @@ Qed.
 Lemma C46_depth_bound_proof c orc t r : In r (exec (real_dec c orc) t) ->
   0 <= r_nest r <= kMaxInlineDepth + r_raw r /\ 0 <= r_raw r <= r_nest r.
 Proof. apply depth_bound_dec. apply real_dec_ok. Qed.
+
+(* ---------- outside the findings' domain no inline entry is unchecked ---------- *)
+Lemma of_code_raw code dg : of_code code true = Inl dg false -> code = 11.
+Proof.
+  unfold of_code. destruct (code =? 0); [discriminate|]. destruct (code =? 1); [discriminate|].
+  destruct (code =? 11) eqn:E; [intros _; apply Z.eqb_eq; exact E | discriminate].
+Qed.
+Lemma of_code_inl code guarded dg chk : of_code code guarded = Inl dg chk -> code = 1 \/ code = 11.
+Proof.
+  unfold of_code. destruct (code =? 0); [discriminate|]. destruct (code =? 1) eqn:E1; [left; apply Z.eqb_eq; exact E1|].
+  destruct (code =? 11) eqn:E; [right; apply Z.eqb_eq; exact E | discriminate].
+Qed.
+
+Lemma cts_code_11 c e ci cost : G c e gen_cts_schedule ci cost = 11 -> nthr c = 0.
+Proof.
+  intros H. gen_unfold. destruct (nthr c =? 0) eqn:En; [apply Z.eqb_eq; exact En|]. exfalso.
+  cbn [negb] in H. split_ifs; lia.
+Qed.
+
+Lemma cts_force_inl c e heavy dg chk : cts_force c e heavy = Inl dg chk -> nthr c = 0.
+Proof.
+  unfold cts_force. intros H. apply of_code_inl in H.
+  destruct (nthr c =? 0) eqn:En; [apply Z.eqb_eq; exact En|]. exfalso.
+  gen_unfold. rewrite En in H. cbn [negb] in H. destruct H as [H|H]; split_ifs; lia.
+Qed.
+
+Lemma guarded_site_checked c e s g dg chk : site_unguarded c s = false -> dispatch c e s g = Inl dg chk -> chk = true.
+Proof.
+  intros Hs H. destruct chk; [reflexivity|]. exfalso.
+  destruct s; cbn [site_unguarded] in Hs; try discriminate; cbn [dispatch] in H.
+  - apply set_bulk_ok in H. destruct H as [(_ & X & _)|(_ & _ & X)]; discriminate.
+  - apply of_code_raw in H. apply cts_code_11 in H. rewrite H in Hs. discriminate.
+  - destruct heavy; [discriminate|]. apply set_bulk_ok in H. destruct H as [(_ & X & _)|(_ & _ & X)]; discriminate.
+  - destruct (can g); [discriminate|]. apply cts_force_inl in H. rewrite H in Hs. discriminate.
+  - destruct (can g).
+    + apply of_code_raw in H. apply cts_code_11 in H. rewrite H in Hs. discriminate.
+    + apply cts_force_inl in H. rewrite H in Hs. discriminate.
+Qed.
+
+Lemma below_noraw c dec :
+  (forall id s g dg chk, site_unguarded c s = false -> dec id s g = Inl dg chk -> chk = true) ->
+  forall t nest g, uses_unguarded c t = false -> Forall (fun r => r_raw r = 0) (below dec t nest g 0).
+Proof.
+  intros Hd. induction t as [i kids IH] using task_ind'. intros nest g Hu. cbn [below]. cbn [uses_unguarded] in Hu.
+  induction kids as [|[s k] rest IHr]; cbn [kids_runs]; [constructor|].
+  inversion IH as [|? ? Hk Hrest]; subst. cbn [snd] in Hk.
+  cbn [existsb fst snd] in Hu. apply orb_false_elim in Hu. destruct Hu as [Hu1 Hu2]. apply orb_false_elim in Hu1. destruct Hu1 as [Hs Hku].
+  specialize (IHr Hrest Hu2). apply Forall_app. split; [|exact IHr].
+  destruct (dec (tid k) s g) as [dg chk| |] eqn:E; [| |constructor].
+  - rewrite (Hd _ _ _ _ _ Hs E). constructor; [reflexivity | apply Hk; exact Hku].
+  - constructor; [reflexivity | apply Hk; exact Hku].
+Qed.
+
+Lemma C46_holds_except_proof c orc t : uses_unguarded c t = false ->
+  forall r, In r (exec (real_dec c orc) t) -> 0 <= r_nest r <= kMaxInlineDepth.
+Proof.
+  intros Hu r Hin. pose proof (C46_depth_bound_proof c orc t r Hin) as [Hb _].
+  assert (Hr : r_raw r = 0).
+  { unfold exec in Hin. destruct Hin as [<-|Hin]; [reflexivity|].
+    pose proof (below_noraw c (real_dec c orc)) as F.
+    assert (Hd : forall id s g dg chk, site_unguarded c s = false -> real_dec c orc id s g = Inl dg chk -> chk = true).
+    { intros id s g dg chk Hs. unfold real_dec. apply guarded_site_checked. exact Hs. }
+    specialize (F Hd t 0 0 Hu). rewrite Forall_forall in F. apply F. exact Hin. }
+  lia.
+Qed.
+
+(* ---------- refutations: a chain at an unguarded site nests to its length ---------- *)
+Lemma chain_deepest dec s : (forall id g, exists dg chk, dec id s g = Inl dg chk) ->
+  forall n i nest g raw, (0 < n)%nat -> exists r, In r (below dec (chain_from s i n) nest g raw) /\ r_nest r = nest + Z.of_nat n.
+Proof.
+  intros Hd. induction n as [|m IH]; intros i nest g raw Hn; [lia|].
+  cbn [chain_from below kids_runs]. destruct (Hd (tid (chain_from s (i + 1) m)) g) as (dg & chk & E). rewrite E.
+  rewrite app_nil_r. destruct m as [|m'].
+  - eexists. split; [left; reflexivity|]. cbn [r_nest]. lia.
+  - destruct (IH (i + 1) (nest + 1) (g + dg + body_guard s) (if chk then raw else raw + 1)) as (r & Hin & Hr); [lia|].
+    exists r. split; [right; exact Hin | lia].
+Qed.
+
+Lemma chain_refutes c e s : (forall g, exists dg chk, dispatch c e s g = Inl dg chk) ->
+  forall n, (0 < n)%nat -> exists r, In r (exec (real_dec c (fun _ => e)) (chain s n)) /\ r_nest r = Z.of_nat n.
+Proof.
+  intros H n Hn. destruct (chain_deepest (real_dec c (fun _ => e)) s) with (n := n) (i := 0) (nest := 0) (g := 0) (raw := 0) as (r & Hin & Hr).
+  - intros id g. unfold real_dec. apply H.
+  - exact Hn.
+  - exists r. split; [right; exact Hin | lia].
+Qed.
+
+(* the measured configuration: 1 pool thread (poolLoadFactor_ 32, taskSetLoadFactor_ 4), 40 blocked force-queued tasks, so
+   workRemaining_ = 40 > 32 for an external (not pool-recursive) caller; for the task-set sites the blockers are in the set *)
+Definition cfg1 : cfg := CFG 1 32 4 3 1.
+Definition cfg0 : cfg := CFG 0 0 0 3 0.                 (* a pool without threads *)
+Definition env_pool : env := ENV 0 40 false false false.
+Definition env_set : env := ENV 40 40 false false false.
+Definition env_idle : env := ENV 0 0 false false false.
+
+Lemma pool_always_inline g : exists dg chk, dispatch cfg1 env_pool SPool g = Inl dg chk.
+Proof. exists 0, false. reflexivity. Qed.
+Lemma poolplaced_always_inline g : exists dg chk, dispatch cfg1 env_pool SPoolPlaced g = Inl dg chk.
+Proof. exists 0, false. reflexivity. Qed.
+Lemma poolbulk_always_inline g : exists dg chk, dispatch cfg1 env_pool SPoolBulk g = Inl dg chk.
+Proof. exists 0, false. reflexivity. Qed.
+Lemma tsk_always_inline g : exists dg chk, dispatch cfg1 env_set STsk g = Inl dg chk.
+Proof. exists 0, false. reflexivity. Qed.
+Lemma thenimm_always_inline c e g : exists dg chk, dispatch c e SThenImm g = Inl dg chk.
+Proof. exists 0, false. reflexivity. Qed.
+Lemma thenpool_always_inline g : exists dg chk, dispatch cfg1 env_pool SThenPool g = Inl dg chk.
+Proof. exists 0, false. reflexivity. Qed.
+(* heavy ConcurrentTaskSet::scheduleBulk: invokeInline (guarded) below the cap, pool_.scheduleBulkPlaced -> gen(i)() above it *)
+Lemma ctshbulk_always_inline g : exists dg chk, dispatch cfg1 env_set (SCtsBulk true) g = Inl dg chk.
+Proof.
+  cbn [dispatch]. unfold set_bulk. cbn [e_canc env_set negb andb].
+  destruct (can g); [exists 1, true | exists 0, false]; reflexivity.
+Qed.
+(* a pool without threads: every ForceQueuingTag path runs the functor at once *)
+Lemma cts_zero_always_inline heavy g : exists dg chk, dispatch cfg0 env_idle (SCts heavy) g = Inl dg chk.
+Proof. cbn [dispatch]. destruct (can g); destruct heavy; eexists; eexists; reflexivity. Qed.
+
+Definition refuted_at (c : cfg) (e : env) (s : site) : Prop :=
+  forall n, (0 < n)%nat -> exists r, In r (exec (real_dec c (fun _ => e)) (chain s n)) /\ r_nest r = Z.of_nat n.
+
+Lemma refuted_pool : refuted_at cfg1 env_pool SPool.
+Proof. unfold refuted_at. apply chain_refutes. exact pool_always_inline. Qed.
+Lemma refuted_poolplaced : refuted_at cfg1 env_pool SPoolPlaced.
+Proof. unfold refuted_at. apply chain_refutes. exact poolplaced_always_inline. Qed.
+Lemma refuted_poolbulk : refuted_at cfg1 env_pool SPoolBulk.
+Proof. unfold refuted_at. apply chain_refutes. exact poolbulk_always_inline. Qed.
+Lemma refuted_tsk : refuted_at cfg1 env_set STsk.
+Proof. unfold refuted_at. apply chain_refutes. exact tsk_always_inline. Qed.
+Lemma refuted_thenimm : refuted_at cfg1 env_idle SThenImm.
+Proof. unfold refuted_at. apply chain_refutes. apply thenimm_always_inline. Qed.
+Lemma refuted_thenpool : refuted_at cfg1 env_pool SThenPool.
+Proof. unfold refuted_at. apply chain_refutes. exact thenpool_always_inline. Qed.
+Lemma refuted_ctshbulk : refuted_at cfg1 env_set (SCtsBulk true).
+Proof. unfold refuted_at. apply chain_refutes. exact ctshbulk_always_inline. Qed.
+Lemma refuted_cts_zero heavy : refuted_at cfg0 env_idle (SCts heavy).
+Proof. unfold refuted_at. apply chain_refutes. apply cts_zero_always_inline. Qed.
+
+(* no constant bounds the nesting: for every K some program exceeds it *)
+Lemma refuted_unbounded c e s : refuted_at c e s -> forall K, exists t r, In r (exec (real_dec c (fun _ => e)) t) /\ K < r_nest r.
+Proof.
+  intros H K. destruct (H (Z.to_nat (Z.max K 0) + 1)%nat) as (r & Hin & Hr); [lia|].
+  exists (chain s (Z.to_nat (Z.max K 0) + 1)), r. split; [exact Hin | lia].
+Qed.
+
+(* every refutation witness lies in the findings' domain *)
+Lemma witnesses_in_domain :
+  site_unguarded cfg1 SPool = true /\ site_unguarded cfg1 SPoolPlaced = true /\ site_unguarded cfg1 SPoolBulk = true /\
+  site_unguarded cfg1 STsk = true /\ site_unguarded cfg1 SThenImm = true /\ site_unguarded cfg1 SThenPool = true /\
+  site_unguarded cfg1 (SCtsBulk true) = true /\ site_unguarded cfg0 (SCts false) = true /\ site_unguarded cfg0 (SCts true) = true.
+Proof. repeat split. Qed.
+
+(* nesting through wait(): n independent waiting tasks can nest n deep when every wait is handed the next task *)
+Lemma wait_nest_all n cur : wait_nest (repeat true n) cur = cur + Z.of_nat n.
+Proof.
+  revert cur. induction n as [|m IH]; intros cur; cbn [repeat wait_nest]; [lia|].
+  rewrite IH. lia.
+Qed.
+
+Lemma C46_refuted_proof : ~ (exists K, forall c orc t r, In r (exec (real_dec c orc) t) -> r_nest r <= K).
+Proof.
+  intros [K H]. destruct (refuted_unbounded _ _ _ refuted_pool K) as (t & r & Hin & Hr).
+  specialize (H _ _ _ _ Hin). lia.
+Qed.
+Lemma wait_nest_from_zero n : wait_nest (repeat true n) 0 = Z.of_nat n.
+Proof. rewrite wait_nest_all. lia. Qed.
